@@ -661,8 +661,11 @@ class AASDataChecker(DataChecker):
         self._check_specific_asset_ids_equal(object_.specific_asset_id, expected_value.specific_asset_id, object_)
         self.check_contained_element_length(object_, 'statement', model.SubmodelElement, len(expected_value.statement))
         for expected_element in expected_value.statement:
-            element = object_.get_referable(expected_element.id_short)
-            self.check(element is not None, f'Entity {repr(expected_element)} must exist')
+            try:
+                element = object_.get_referable(expected_element.id_short)
+                self._check_submodel_element(element, expected_element)  # type: ignore
+            except KeyError:
+                self.check(False, f'Entity {repr(expected_element)} must exist')
 
         found_elements = self._find_extra_namespace_set_elements_by_id_short(object_.statement,
                                                                              expected_value.statement)
